@@ -91,6 +91,58 @@ class FA:
     def line(self, n: int) -> int:
         return self.cfg.nodes[n].lineno
 
+    # ---- convenience queries used by the property modules --------------------------------------------
+    def conds_at(self, n: int, kinds=("test",), asserts=True) -> List[Term]:
+        """Branch conditions that hold on every path reaching n (normal forms, negated for False edges)."""
+        from .sym import negate
+        out = []
+        for t, lab in self.cfg.control_predicates(n):
+            nd = self.cfg.nodes[t]
+            if nd.kind not in kinds or nd.kind != "test":
+                continue
+            if not asserts and isinstance(nd.owner, ast.Assert):
+                continue
+            c = self.sym.term(nd.ast, t)
+            out.append(c if lab else negate(c))
+        return out
+
+    def returns(self) -> List[Tuple[int, Optional[Term]]]:
+        """(node, term of the returned value or None for a bare return) of every reachable return."""
+        out = []
+        for n in sorted(self.cfg.nodes):
+            nd = self.cfg.nodes[n]
+            if nd.kind == "stmt" and isinstance(nd.ast, ast.Return):
+                out.append((n, self.sym.term(nd.ast.value, n) if nd.ast.value is not None else None))
+        return out
+
+    def calls_named(self, name: str) -> List[Tuple[int, ast.Call]]:
+        """Calls whose callee's last component (attribute or bare name) is ``name``."""
+        out = []
+        for n, c in self.calls():
+            f = c.func
+            if (isinstance(f, ast.Attribute) and f.attr == name) or (isinstance(f, ast.Name) and f.id == name):
+                out.append((n, c))
+        return out
+
+    def stores(self, prefix: Optional[str] = None) -> List[Tuple[int, str, Optional[ast.AST]]]:
+        """(node, variable, value expr) of every definition (entry pseudo-definitions excluded)."""
+        out = []
+        for n in sorted(self.cfg.nodes):
+            if self.cfg.nodes[n].kind == "entry":
+                continue
+            for var, tgt, val in self.cfg.defs_at(n):
+                if prefix is None or var.startswith(prefix):
+                    out.append((n, var, val))
+        return out
+
+    def yields(self) -> List[Tuple[int, ast.AST]]:
+        out = []
+        for n in sorted(self.cfg.nodes):
+            for x in self.cfg.walk_node(n):
+                if isinstance(x, (ast.Yield, ast.YieldFrom)):
+                    out.append((n, x))
+        return out
+
 
 def _non_none(t) -> Optional[bool]:
     """True if the term is definitely not None, False if definitely None."""
